@@ -81,7 +81,7 @@ fn c20_3x3_thorough() { run(3, 3, true); }
 #[test]
 #[ignore]
 fn c20_4x1_thorough() { run(4, 1, true); }
-// 4 threads x 2 calls is 8.5 million executions (14 minutes): not part of any tier.
+// 4 threads x 2 calls is 8.5 million executions (about 14 minutes single-threaded): thorough tier only.
 #[test]
 #[ignore]
-fn c20_4x2_deep() { run_named(4, 2, false, "shared"); }
+fn c20_4x2_thorough() { run_named(4, 2, false, "shared"); }
